@@ -367,6 +367,75 @@ fn run_instance_reuse<S: Shredder>(name: &'static str, report: &Report, st: &Sta
     }
 }
 
+/// Every sequence of three (thorough: four) operations on ONE shredder instance over
+/// {shred a slice of size x, restore a slice of size x from 32 shreds made elsewhere}, x from a
+/// small size menu: every shred call must give shreds a pristine instance restores to the slice,
+/// every restore must give the slice - whatever the instance did before.
+fn run_operation_sequences<S: Shredder>(name: &'static str, report: &Report, st: &Stats, tier: Tier) {
+    let sk = SecretKey::new(&mut StdRng::seed_from_u64(seed() ^ 0x13));
+    let max = S::MAX_DATA_SIZE - overhead(true);
+    let sizes: Vec<usize> = vec![1, 1000, max];
+    // fixtures made by pristine instances
+    let fixtures: Vec<(Slice, [ValidatedShred; TOTAL_SHREDS])> = sizes
+        .iter()
+        .enumerate()
+        .map(|(k, len)| {
+            let slice = mk_slice(11, k, false, true, *len);
+            let shreds = S::default().shred(&slice, &sk).expect("fixture shreds");
+            (slice, shreds)
+        })
+        .collect();
+    let nops = 2 * sizes.len();
+    let len = tier.pick(3usize, 4);
+    let total = nops.pow(len as u32);
+    for code in 0..total {
+        let mut c = code;
+        let ops: Vec<usize> = (0..len).map(|_| { let o = c % nops; c /= nops; o }).collect();
+        let describe: Vec<String> = ops.iter().map(|o| format!("{}({})", if o % 2 == 0 { "shred" } else { "restore" }, sizes[o / 2])).collect();
+        let mut shredder = S::default();
+        for (step, o) in ops.iter().enumerate() {
+            st.evals.fetch_add(1, Ordering::Relaxed);
+            st.nontrivial.fetch_add(1, Ordering::Relaxed);
+            let (slice, fx_shreds) = &fixtures[o / 2];
+            let replay = json!({"shredder": name, "oracle": "operation-sequence", "operations_on_one_instance": describe, "step": step});
+            let input: [ValidatedShred; TOTAL_SHREDS] = if o % 2 == 0 {
+                match catch(std::panic::AssertUnwindSafe(|| shredder.shred(slice, &sk))) {
+                    Ok(Ok(s)) => s,
+                    Ok(Err(e)) => {
+                        report.violation(format!("C11:fitting-slice-refused:{name}:operation-sequence"), format!("{describe:?} step {step}: {e:?}"), replay);
+                        break;
+                    }
+                    Err(p) => {
+                        report.violation(format!("C11:shred-panics:{name}:operation-sequence"), format!("{describe:?} step {step}: {p:.120}"), replay);
+                        break;
+                    }
+                }
+            } else {
+                fx_shreds.clone()
+            };
+            // shreds just made are restored by a pristine instance, foreign shreds by this one
+            let mut arr: [Option<ValidatedShred>; TOTAL_SHREDS] = [const { None }; TOTAL_SHREDS];
+            for i in (step % 2..TOTAL_SHREDS).step_by(2) {
+                arr[i] = Some(input[i].clone());
+            }
+            let r = if o % 2 == 0 {
+                catch(std::panic::AssertUnwindSafe(|| S::default().deshred(&mut arr).map(|r| { let s: &Slice = &r; s.clone() })))
+            } else {
+                catch(std::panic::AssertUnwindSafe(|| shredder.deshred(&mut arr).map(|r| { let s: &Slice = &r; s.clone() })))
+            };
+            match r {
+                Ok(Ok(got)) if &got == slice => {}
+                Ok(Ok(_)) => report.violation(format!("C11:restored-slice-differs:{name}:operation-sequence"), format!("{describe:?} step {step}"), replay),
+                Ok(Err(e)) => report.violation(format!("C11:enough-shreds-not-restored:{name}:operation-sequence"), format!("one instance performing {describe:?}: step {step} does not restore from 32 valid shreds: {e:?}"), replay),
+                Err(p) => {
+                    report.violation(format!("C11:deshred-panics:{name}:operation-sequence"), format!("one instance performing {describe:?}: step {step} panics: {p:.120}"), replay);
+                    break;
+                }
+            }
+        }
+    }
+}
+
 pub fn run(tier: Tier) -> i32 {
     let report = Report::new("C11", tier, "exploration");
     let st = Stats {
@@ -385,6 +454,10 @@ pub fn run(tier: Tier) -> i32 {
     run_instance_reuse::<CodingOnlyShredder>("coding-only", &report, &st);
     run_instance_reuse::<AontShredder>("aont", &report, &st);
     run_instance_reuse::<PetsShredder>("pets", &report, &st);
+    run_operation_sequences::<RegularShredder>("regular", &report, &st, tier);
+    run_operation_sequences::<CodingOnlyShredder>("coding-only", &report, &st, tier);
+    run_operation_sequences::<AontShredder>("aont", &report, &st, tier);
+    run_operation_sequences::<PetsShredder>("pets", &report, &st, tier);
     let err_lengths: Vec<usize> = f2.iter().copied().chain((60..4000).step_by(tier.pick(397, 41))).collect();
     run_error_paths::<RegularShredder, AontShredder>("regular->aont", &err_lengths, &report, &st);
     run_error_paths::<AontShredder, RegularShredder>("aont->regular", &err_lengths, &report, &st);
